@@ -144,18 +144,22 @@ def build_overlay(repo, scratch, modules, holes=None):
 
 
 def _rss_watch(proc, cap_kb, flag):
-    """Kill the process group if the summed RSS of cbmc children exceeds cap."""
+    """Kill the process group if a verifier process of THIS run exceeds the RSS cap."""
+    try:
+        pgid = os.getpgid(proc.pid)
+    except OSError:
+        return
     while proc.poll() is None:
         try:
-            out = subprocess.run(['ps', '-eo', 'pid,ppid,rss,comm'], capture_output=True, text=True).stdout
+            out = subprocess.run(['ps', '-eo', 'pid,pgid,rss,comm'], capture_output=True, text=True).stdout
             tot = 0
             for line in out.split('\n')[1:]:
                 f = line.split()
-                if len(f) >= 4 and f[3] in ('cbmc', 'kani-compiler', 'goto-instrument', 'cadical', 'kissat'):
+                if len(f) >= 4 and int(f[1]) == pgid and f[3] in ('cbmc', 'kani-compiler', 'goto-instrument', 'cadical', 'kissat'):
                     tot = max(tot, int(f[2]))
             if tot > cap_kb:
                 flag.append('RSS cap exceeded (%d MB)' % (tot // 1024))
-                os.killpg(os.getpgid(proc.pid), signal.SIGKILL)
+                os.killpg(pgid, signal.SIGKILL)
                 return
         except Exception:
             pass
